@@ -543,7 +543,7 @@ func declare(cmd *cli.Cmd, d *declSpec, path string, sharedDefs map[string]inter
 	rec := &varRec{key: path + "|" + name}
 	var sbu *bool
 	if d.Sbu {
-		sbu = new(bool)
+		sbu = stale(new(bool)) // the caller's variable may hold anything before the declaration
 		rec.sbu = sbu
 	}
 
